@@ -58,6 +58,20 @@ MUTANTS = [
      "                if identifier in curr_path and len(curr_path) > 2:\n                    # The user's dependency graph contains a cycle\n                    raise CyclicDependency(\n                        task_identifier=task_identifier\n                    )", ["C14"]),
     ("loader-visited-early", "parsing/task_index.py",
      "                identifiers_to_load.append((identifier, 1))\n                curr_path.add(identifier)\n", "                identifiers_to_load.append((identifier, 1))\n                curr_path.add(identifier)\n                visited_identifiers.add(identifier)\n", ["C14"]),
+    ("sigchld-no-wakeup-fd", "utils/sigchld.py",
+     "        existing_wakeup_fd = signal.set_wakeup_fd(\n            self._write_pipe, warn_on_full_buffer=False\n        )\n", "        existing_wakeup_fd = signal.set_wakeup_fd(-1)\n", ["C09"]),
+    ("sigchld-signal-death-is-zero", "utils/sigchld.py",
+     "                    returncode = os.WTERMSIG(status)\n", "                    returncode = 0\n", ["C09", "C03", "C01"]),
+    ("version-rule-no-catch-up", "execution/version_index.py",
+     "        elif timestamp < self._last_timestamp:\n            timestamp = self._last_timestamp + 1\n", "        elif False:\n            timestamp = self._last_timestamp + 1\n", ["C08"]),
+    ("validate-no-dependee-count", "parsing/task_index.py",
+     "                        root_candidates[dep_id] += 1\n", "                        root_candidates[dep_id] += 0\n", ["C14"]),
+    ("validate-visited-late", "parsing/task_index.py",
+     "                if curr_id in visited:\n                    # We put this check here", "                if False and curr_id in visited:\n                    # We put this check here", ["C14"]),
+    ("revert-D20-slot-pop", "execution/ops/run_task_executable.py",
+     "                env_vars.pop(SLOT_ENV_VARIABLE_NAME, None)\n", "                pass\n", ["C04"]),
+    ("gate-parallel-mode-ignored", "execution/executor.py",
+     "                self._running_parallel\n                and len(self._inflight_ops) < self._slots", "                True\n                and len(self._inflight_ops) < self._slots", ["C04"]),
     ("loader-no-dup-check", "parsing/task_index.py",
      "                    if dep_identifier in task_deps_set:\n", "                    if dep_identifier in task_deps_set and len(task_deps) > 2:\n", ["C14"]),
 ]
